@@ -526,6 +526,12 @@ def _mirsym():
         spec=scp.TableBatchSpec(), stubs=["Partition::from_buffer -> recorder (range = offset .. offset + buffer rows)", "mem::take::<Buffer> -> empty buffer", "Mutex/RwLock -> boxes", "AtomicU64/AtomicUsize::fetch_add -> cells"],
         assumptions=["flushes are serialised (wal_flush holds the table's frozen buffer): Table::batch itself runs sequentially"])
 
+    add("C01.l/unpack_strings", "C01", "mirsym", Q,
+        "UnpackStrings::init then ::execute(streaming) batch after batch (query-side decoding of packed string columns): the batches, concatenated, are exactly the packed strings in order and byte for byte; no batch exceeds batch_size; has_more turns false after the last string",
+        ["<UnpackStrings as VecOperator>::{init,execute}", "stringpack::StringPackerIterator::{from_slice,next}"],
+        bounds="5 (quick) / 9 (thorough) (string lengths, batch_size) pairs incl. lengths 254/255/256 and string counts that are multiples of batch_size; first and last byte of each string symbolic",
+        spec=so3.UnpackStringsSpec(), stubs=ostub)
+
 
 _mirsym()
 
